@@ -270,6 +270,8 @@ __gmp_doprnt (const struct doprnt_funs_t *funs, void *data,
             TRACE (printf ("integer, base=%d\n", param.base));
             if (! seen_precision)
               param.prec = -1;
+            else if (param.prec < 0)
+              param.prec = 0;  /* C99: "." alone is precision zero */
             switch (type) {
             case 'j':
               /* Let's assume uintmax_t is the same size as intmax_t. */
